@@ -461,6 +461,68 @@ let run_case line =
                   (String.concat " " (List.map (fun (a, b) -> Printf.sprintf "%d,%d" (int_of_z a) (int_of_z b)) s.whist))
             | (None, n) -> Printf.sprintf "NONE states=%d%s" n (if n > limit then " state-limit-reached" else ""))
        | _ -> failwith "wmsearch: D d C c")
+  | "poolsearch" :: which :: n :: "L" :: lim :: _ ->
+      (* breadth-first search of the pool model for a state in which Executor::run reads a wrong message
+         count, returns with work left, or the assertion of try_set_worker_inactive fails.
+         A search for a replay, never evidence.  Budgets: 1 spawn per run call, 2 run calls, 2 wakes,
+         3 count changes of +1/-1. *)
+      let b = (match which with "gen" -> barrier_gen | "pinned" -> barrier_pinned | "fixed" -> barrier_fixed | _ -> failwith "poolsearch: gen|pinned|fixed") in
+      let n = ios n and limit = ios lim in
+      let nn = nat_of_int in
+      let wl j = List.map (fun c -> (LW (nn j, c), 0)) [PNone; PPop (nn 1); PGiveUp; PDone; PPushLocal; PDrain (nn 1); PPushInj (nn 1); PNext; PSkip]
+                 @ [(LW (nn j, PWake), 1); (LW (nn j, PCnt (z_of_int 1)), 2); (LW (nn j, PCnt (z_of_int (-1))), 2)]
+                 @ List.concat (List.init n (fun v -> if v = j then [] else [(LW (nn j, PSteal (nn v, nn 1)), 0); (LW (nn j, PActivate (nn v)), 0)])) in
+      let labels = [(LM, 0); (LSpawn, 3); (LRunCall, 4)] @ List.concat (List.init n wl) in
+      let lab_str l = (match l with
+        | LM -> "M" | LSpawn -> "spawn" | LRunCall -> "run"
+        | LW (j, c) -> Printf.sprintf "w%d:%s" (int_of_nat j) (match c with
+            | PNone -> "-" | PPop _ -> "pop" | PSteal (v, _) -> Printf.sprintf "steal%d" (int_of_nat v) | PGiveUp -> "giveup"
+            | PCnt d -> Printf.sprintf "cnt%+d" (int_of_z d) | PWake -> "wake" | PDone -> "done" | PPushLocal -> "pushlocal"
+            | PDrain _ -> "drain" | PPushInj _ -> "pushinj" | PNext -> "next" | PActivate v -> Printf.sprintf "activate%d" (int_of_nat v)
+            | PSkip -> "skip")) in
+      let seen = Hashtbl.create 100000 in
+      let q = Queue.create () in
+      let s0 = p_init (nn n) in
+      (* budgets: wakes, cnts, spawns, runs *)
+      Queue.add (s0, (2, 3, 2, 2), []) q;
+      Hashtbl.replace seen (Marshal.to_string (s0, (2, 3, 2, 2)) []) ();
+      let found = ref None and count = ref 0 in
+      (try
+        while !found = None && not (Queue.is_empty q) && !count <= limit do
+          let (s, (bw, bc, bs, br), path) = Queue.pop q in
+          incr count;
+          List.iter (fun (l, kind) ->
+            if !found = None then begin
+              let bud = (match kind with
+                | 1 -> if bw > 0 then Some (bw - 1, bc, bs, br) else None
+                | 2 -> if bc > 0 then Some (bw, bc - 1, bs, br) else None
+                | 3 -> if bs > 0 then Some (bw, bc, bs - 1, br) else None
+                | 4 -> if br > 0 then Some (bw, bc, bs, br - 1) else None
+                | _ -> Some (bw, bc, bs, br)) in
+              match bud with
+              | None -> ()
+              | Some bud ->
+                (match p_step b s l with
+                 | None -> ()
+                 | Some s' ->
+                     let key = Marshal.to_string (s', bud) [] in
+                     if not (Hashtbl.mem seen key) then begin
+                       Hashtbl.replace seen key ();
+                       let path' = l :: path in
+                       if p_bad s' then found := Some (List.rev path', s')
+                       else Queue.add (s', bud, path') q
+                     end)
+            end) labels
+        done
+      with Exit -> ());
+      (match !found with
+       | Some (path, s) ->
+           Printf.sprintf "FOUND states=%d | %s | main=%d msg=%d net=%d inj=%d panic=%d cnts=%s acts=%s" !count
+             (String.concat " " (List.map lab_str path))
+             (int_of_nat (x_p_main s)) (int_of_z (x_p_msg s)) (int_of_z (x_p_net s)) (int_of_nat (x_p_inj s)) (int_of_nat (x_p_panic s))
+             (String.concat "," (List.map (fun c -> string_of_int (int_of_z c)) (x_p_cnts s)))
+             (String.concat "," (List.map (fun b -> if b then "1" else "0") (x_p_acts s)))
+       | None -> Printf.sprintf "NONE states=%d%s" !count (if !count > limit then " state-limit-reached" else ""))
   | "crw" :: ops ->
       let op_of tok = match split_on ',' tok with
         | ["c"; i] -> CClone (nat_of_int (ios i))
